@@ -27,6 +27,15 @@ Theorem C11_sse_roundtrip : forall l : list (enc_choice * str),
 Proof. exact sse_roundtrip. Qed.
 Print Assumptions C11_sse_roundtrip.
 
+(** ... and events WITHOUT data between the messages - a typed keep-alive ("event: ping" and the blank line), a block
+    holding only a comment, even a data-less "event: message" - change nothing: nothing is delivered for them and the type
+    they name does not stick to the events that follow (every such block, any name, any spelling choices). *)
+Theorem C11_dataless_events_change_nothing : forall l : list (list noise * (enc_choice * str)),
+  forallb noisy_event_ok l = true ->
+  sse_messages (sse_encode_noisy l) = map (fun x => snd (snd x)) l.
+Proof. exact sse_roundtrip_noisy. Qed.
+Print Assumptions C11_dataless_events_change_nothing.
+
 (** For EVERY answer (any integer status, any content-type string, any body,
     any exception) to a request with id r: either the server's own response to
     r is among the delivered messages and nothing was synthesised, or no
@@ -166,3 +175,12 @@ Proof.
   repeat split; try (vm_compute; reflexivity).
   left. split; reflexivity.
 Qed.
+
+(** A typed keep-alive and a comment-only block ahead of a message that has NO event field of its own, CRLF ends, no space
+    after the colons: the message is delivered (the "ping" type is gone by then). *)
+Example C11_dataless_nonvacuous :
+  let c := {| ec_before := []; ec_after := []; ec_event := EvAbsent; ec_space := false; ec_crlf := true; ec_blanks := 0%nat |} in
+  let m := [123; 34; 97; 34; 58; 49; 125] in
+  let l := [([NTyped [112; 105; 110; 103]; NCommentOnly [32; 107]; NTyped v_message], (c, m))] in
+  forallb noisy_event_ok l = true /\ sse_messages (sse_encode_noisy l) = [m].
+Proof. vm_compute. split; reflexivity. Qed.
